@@ -1,0 +1,42 @@
+//! Verification hooks (cargo feature `verif_hooks`, off by default): a deterministic step counter
+//! and token / AST dumps of the private tokenizers and parsers. Nothing here is compiled
+//! unless the feature is enabled.
+use std::cell::Cell;
+
+thread_local! {
+    static TICKS: Cell<u64> = const { Cell::new(0) };
+    static BUDGET: Cell<u64> = const { Cell::new(u64::MAX) };
+}
+
+/// Count one lexing / parsing / evaluation step; panics with "verif:budget" past the budget.
+pub fn tick() {
+    let n = TICKS.with(|t| {
+        let n = t.get() + 1;
+        t.set(n);
+        n
+    });
+    if n > BUDGET.with(|b| b.get()) {
+        panic!("verif:budget");
+    }
+}
+
+/// Reset the counter and arm a budget (u64::MAX = unlimited).
+pub fn reset(budget: u64) {
+    TICKS.with(|t| t.set(0));
+    BUDGET.with(|b| b.set(budget));
+}
+
+pub fn ticks() -> u64 {
+    TICKS.with(|t| t.get())
+}
+
+#[cfg(feature = "eval_complex")]
+pub use crate::eval_complex::{verif_ast as ast_complex, verif_tokens as tokens_complex};
+#[cfg(feature = "eval_decimal")]
+pub use crate::eval_decimal::{verif_ast as ast_decimal, verif_tokens as tokens_decimal};
+#[cfg(feature = "eval_f64")]
+pub use crate::eval_f64::{verif_ast as ast_f64, verif_tokens as tokens_f64};
+#[cfg(feature = "eval_i64")]
+pub use crate::eval_i64::{verif_ast as ast_i64, verif_tokens as tokens_i64};
+#[cfg(feature = "eval_number")]
+pub use crate::eval_number::{verif_ast as ast_number, verif_tokens as tokens_number};
